@@ -209,70 +209,95 @@ def run(idx: ProgramIndex, rep: Report, tier: str, selftest: bool = True):
         return None
 
     returns = [n for n in cfg.stmt_nodes() if n.kind == "stmt" and isinstance(n.ast, ast.Return)]
+    from ..conds import alternatives as _alts
+
+    def flag_def(name: str) -> Optional[ast.AST]:
+        """the single boolean expression a flag was assigned (ok = not torch.any(info)), else None"""
+        if name in info_names or name in fac_names:
+            return None
+        defs = [n.ast.value for n in cfg.stmt_nodes() if n.kind == "stmt" and isinstance(n.ast, ast.Assign) and len(n.ast.targets) == 1
+                and isinstance(n.ast.targets[0], ast.Name) and n.ast.targets[0].id == name]
+        if len(defs) == 1 and isinstance(defs[0], (ast.BoolOp, ast.UnaryOp, ast.Compare, ast.Call)):
+            return defs[0]
+        return None
+
+    def literal_kind(lit) -> Optional[str]:
+        """'success' (this literal says: all info codes are zero), 'escape' (trace mode is on), or None"""
+        e, pol = lit
+        sp = success_polarity(e)
+        if sp is not None and not isinstance(e, ast.BoolOp):
+            return "success" if pol == sp[0] else "failure"
+        txt = norm(e)
+        if "trace_mode" in txt and not any(isinstance(x, ast.Name) and x.id in info_names for x in ast.walk(e)):
+            if txt.endswith(".on()"):
+                return "escape" if pol else None
+            if txt.endswith(".off()"):
+                return "escape" if not pol else None
+        return None
+
+    # path-based: on every acyclic path to a return of a factor, after the LAST cholesky_ex binding on that path some test
+    # guarantees - whichever of its disjuncts made it take that branch - that the info codes are all zero, or (for the first
+    # factorization only) that trace mode is on.  Dominance is not needed: one `return L` may be shared by several exits.
     for r in returns:
         v = r.ast.value
-        names = {x for x in (ast.walk(v) if v is not None else [])}
-        ret_names = {x.id for x in names if isinstance(x, ast.Name)}
-        if not (ret_names & fac_names):
+        ret_names = {x.id for x in (ast.walk(v) if v is not None else []) if isinstance(x, ast.Name)}
+        # names re-bound from a factor keep being that factor (L = L.mT)
+        derived = set(fac_names)
+        for n in cfg.stmt_nodes():
+            if n.kind == "stmt" and isinstance(n.ast, ast.Assign) and len(n.ast.targets) == 1 and isinstance(n.ast.targets[0], ast.Name) \
+                    and any(isinstance(x, ast.Name) and x.id in derived for x in ast.walk(n.ast.value)) and n not in binds:
+                derived.add(n.ast.targets[0].id)
+        if not (ret_names & derived):
             rep.bad("C16.I", Finding(PROP, "C16.I", fname(helper), norm(r.ast),
                                      "the helper returns something that is not a factor bound from cholesky_ex",
                                      helper.loc(r.ast)))
             continue
-        gate = None
-        # the documented escape: under settings.trace_mode no data-dependent control flow is allowed, the first factor is
-        # returned as it is - whether the test is `trace_mode.on() or not any(info)` or a separate `if trace_mode.on():`
-        tm = [cfg.nodes[d] for d in cfg.dominators(r.id) if cfg.nodes[d].kind == "test" and "trace_mode" in norm(cfg.nodes[d].ast)
-              and not any(isinstance(x, ast.Name) and x.id in info_names for x in ast.walk(cfg.nodes[d].ast))]
-        if tm and cfg.branch_taken(tm[0].id, r.id) is True and ".on()" in norm(tm[0].ast) and not norm(tm[0].ast).startswith("not "):
-            first_bind = [b for b in binds if b.id in cfg.dominators(r.id)]
-            later = [b for b in binds if b.id in cfg.dominators(r.id) and _inside_loop(cfg, b.id)]
-            if first_bind and not later:
-                rep.ok("C16.I", {"return": norm(r.ast), "gate": tm[0].label, "branch": "documented trace_mode escape",
-                                 "trace_mode_escape": True})
-                continue
-        for d in cfg.dominators(r.id):
-            dn = cfg.nodes[d]
-            if dn.kind == "test":
-                sp = success_polarity(dn.ast)
-                if sp is not None:
-                    pol = cfg.branch_taken(d, r.id)
-                    if pol is not None and pol == sp[0]:
-                        gate = (dn, sp[1])
-                        break
-                    if pol is not None and pol != sp[0]:
-                        gate = (dn, None)
-                        break
-        if gate is None:
+        n_paths = 0
+        bad_path = None
+        via = set()
+        bind_ids = {b.id: b for b in binds}
+        first_bind_id = min(bind_ids) if bind_ids else None
+        for path in cfg.acyclic_paths(target=r.id, limit=4000):
+            n_paths += 1
+            last = max((k for k, nid in enumerate(path) if nid in bind_ids), default=None)
+            if last is None:
+                bad_path = ("no factorization on the path", path)
+                break
+            gen = bind_ids[path[last]]
+            ok_kind = None
+            conds_txt = []
+            for a_, b_ in zip(path[last:], path[last + 1:]):
+                nd = cfg.nodes[a_]
+                pol = cfg.g[a_][b_].get("pol")
+                if nd.kind != "test" or pol is None:
+                    continue
+                conds_txt.append(("" if pol else "not ") + nd.label[:50])
+                alts = _alts(nd.ast, pol, flag_def)
+                kinds = []
+                for alt in alts:
+                    ks = {literal_kind(l) for l in alt}
+                    kinds.append("success" if "success" in ks else ("escape" if "escape" in ks else None))
+                if alts and all(k is not None for k in kinds):
+                    if "escape" in kinds and gen.id != first_bind_id:
+                        continue  # the trace-mode escape is documented for the first factorization only
+                    ok_kind = "escape+success" if "escape" in kinds else "success"
+                    break
+            if ok_kind is None:
+                bad_path = ("; ".join(conds_txt) or "no test after the factorization", path)
+                break
+            via.add(ok_kind)
+        sample = {"return": norm(r.ast), "paths": n_paths, "justified_by": sorted(via)}
+        if bad_path is not None:
             rep.bad("C16.I", Finding(PROP, "C16.I", fname(helper), norm(r.ast),
-                                     f"`{norm(r.ast)}` is not dominated by a test of the info codes: a factor of a failed "
-                                     "factorization (containing NaN) may be returned", helper.loc(r.ast)))
-            continue
-        gnode, esc = gate
-        if esc is None:
-            rep.bad("C16.I", Finding(PROP, "C16.I", fname(helper), norm(r.ast) + " under " + gnode.label,
-                                     f"`{norm(r.ast)}` is reached on the FAILURE branch of `{gnode.label}`", helper.loc(r.ast)))
-            continue
-        # same generation: no cholesky_ex binding on any path between the gate and the return
-        between = set(nx.descendants(cfg.g, gnode.id)) & (set(nx.ancestors(cfg.g, r.id)) | {r.id})
-        h = cfg.g.copy()
-        h.remove_node(gnode.id)
-        stale = [b for b in binds if b.id in between and b.id in h and r.id in h and nx.has_path(h, b.id, r.id)
-                 and any(nx.has_path(h, s, b.id) for s in cfg.g.successors(gnode.id) if s in h)]
-        # and the gate tests the generation that reaches it: the nearest binding dominating the gate
-        dom_binds = [b for b in binds if b.id in cfg.dominators(gnode.id)]
-        if stale:
-            rep.bad("C16.I", Finding(PROP, "C16.I", fname(helper), norm(r.ast),
-                                     f"between the test `{gnode.label}` and `{norm(r.ast)}` the factor is re-bound by "
-                                     f"`{stale[0].label[:60]}`: the returned factor is not the generation whose info was tested",
-                                     helper.loc(r.ast)))
-        elif not dom_binds:
-            rep.bad("C16.I", Finding(PROP, "C16.I", fname(helper), norm(r.ast), f"the test `{gnode.label}` is not "
-                                     "preceded by a cholesky_ex binding on every path", helper.loc(r.ast)))
-        else:
-            rep.ok("C16.I", {"return": norm(r.ast), "gate": gnode.label, "branch": "all info zero",
-                             "trace_mode_escape": bool(esc), "generation": dom_binds[0].label[:70]})
-    if len(returns) < 2:
-        rep.error(f"only {len(returns)} return statements in {fname(helper)} (expected the first-try and the retry exit)")
+                                     f"`{norm(r.ast)}` is reached on a path on which the info codes of the LAST factorization were not "
+                                     f"tested all-zero ({bad_path[0]}): a factor of a failed factorization (containing NaN) may be "
+                                     "returned", helper.loc(r.ast)), sample)
+        elif n_paths:
+            rep.ok("C16.I", sample)
+            for _ in range(n_paths - 1):
+                rep.count("C16.I")
+    if not returns:
+        rep.error(f"no return statement in {fname(helper)}")
 
     # ---------------------------------------------------------------- F
     rep.rule("C16.F", "failure is loud: NotPSDError after the retries, NanError before them, a warning per perturbation", floor=3)
@@ -354,6 +379,74 @@ def run(idx: ProgramIndex, rep: Report, tier: str, selftest: bool = True):
                                      "the next factorization", helper.loc(x)))
         else:
             rep.ok("C16.F", {"update": short(x, 70), "followed_by": "warnings.warn(..., NumericalWarning)"})
+
+    # ---------------------------------------------------------------- T
+    # "adds jitter * 10^i, i < max_tries": the retry loop makes exactly max_tries perturbed attempts and the exponent of
+    # the k-th attempt is k.  Decided by linear integer arithmetic on the range() arguments and on the exponent of 10 -
+    # no value is computed.  Shapes the evaluator does not understand (while loops, a running product) are noted, not judged.
+    rep.rule("C16.T", "the retry loop makes max_tries perturbed attempts with exponents 0, 1, 2, ...", floor=1)
+
+    def lin(e: ast.AST, var: Optional[str] = None):
+        """(coefficient of max_tries, coefficient of the loop variable, constant) or None."""
+        if isinstance(e, ast.Constant) and isinstance(e.value, int) and not isinstance(e.value, bool):
+            return (0, 0, e.value)
+        if isinstance(e, ast.Name):
+            if e.id == "max_tries":
+                return (1, 0, 0)
+            if var is not None and e.id == var:
+                return (0, 1, 0)
+            return None
+        if isinstance(e, ast.UnaryOp) and isinstance(e.op, ast.USub):
+            v = lin(e.operand, var)
+            return None if v is None else tuple(-x for x in v)
+        if isinstance(e, ast.BinOp) and isinstance(e.op, (ast.Add, ast.Sub)):
+            l_, r_ = lin(e.left, var), lin(e.right, var)
+            if l_ is None or r_ is None:
+                return None
+            sg = 1 if isinstance(e.op, ast.Add) else -1
+            return tuple(x + sg * y for x, y in zip(l_, r_))
+        return None
+
+    for_loops = [n for n in loops if n.kind == "iter" and isinstance(n.ast, ast.For)]
+    judged = False
+    for lp in for_loops[:1]:
+        it = lp.ast.iter
+        if not (isinstance(it, ast.Call) and isinstance(it.func, ast.Name) and it.func.id == "range" and 1 <= len(it.args) <= 2
+                and isinstance(lp.ast.target, ast.Name)):
+            continue
+        start = lin(it.args[0]) if len(it.args) == 2 else (0, 0, 0)
+        stop = lin(it.args[-1])
+        if start is None or stop is None:
+            continue
+        judged = True
+        trips = tuple(b_ - a_ for a_, b_ in zip(start, stop))
+        sample = {"function": fname(helper), "loop": norm(it), "trip_count": f"{trips[0]}*max_tries + {trips[2]}"}
+        if trips == (1, 0, 0):
+            rep.ok("C16.T", sample)
+        else:
+            rep.bad("C16.T", Finding(PROP, "C16.T", fname(helper), f"retry loop over {norm(it)}",
+                                     f"the retry loop runs {trips[0]}*max_tries{trips[2]:+d} times, not max_tries times: the largest jitter "
+                                     "level jitter*10^(max_tries-1) is never tried (or one level too many is), so a matrix that the last "
+                                     "level would rescue raises NotPSDError", helper.loc(lp.ast)), sample)
+        var = lp.ast.target.id
+        for x in ast.walk(lp.ast):
+            if isinstance(x, ast.BinOp) and isinstance(x.op, ast.Pow) and isinstance(x.left, ast.Constant) and x.left.value == 10:
+                ex = lin(x.right, var)
+                if ex is None:
+                    continue
+                # exponent at the first trip (loop variable = start) must be 0 and grow by one per trip
+                first = (ex[0] + ex[1] * start[0], ex[2] + ex[1] * start[2])
+                sample2 = {"function": fname(helper), "exponent": norm(x.right), "at_first_trip": f"{first[0]}*max_tries + {first[1]}",
+                           "per_trip": ex[1]}
+                if first == (0, 0) and ex[1] == 1:
+                    rep.ok("C16.T", sample2)
+                else:
+                    rep.bad("C16.T", Finding(PROP, "C16.T", fname(helper), f"jitter exponent {norm(x.right)}",
+                                             f"the k-th retry adds jitter * 10**({norm(x.right)}), which is not jitter * 10**k for "
+                                             f"k = 0, 1, ... with the loop over {norm(it)}", helper.loc(x)), sample2)
+    if not judged:
+        rep.note("C16.T: the retry loop is not a for-loop over range() of linear bounds; trip count not judged")
+        rep.count("C16.T")
 
     # ---------------------------------------------------------------- D
     rep.rule("C16.D", "the perturbation depends on info, is incremental, and defaults come from the per-dtype settings", floor=4)
